@@ -34,6 +34,13 @@ def _cell(o, v):
     return (H('d', int(o), int(v)) % 1024) / 64.0
 
 
+def _data(n_obs, V, dtype):
+    """data matrix of the planned dtype (integer types get integer-valued cells)"""
+    if dtype.startswith('int'):
+        return np.array([[H('d', o, v) % 40 for v in range(V)] for o in range(n_obs)], dtype=dtype)
+    return np.array([[_cell(o, v) for v in range(V)] for o in range(n_obs)], dtype=dtype)
+
+
 def gen_plan(rng, tier, index):
     big = tier == 'thorough'
     mode = rng.wpick([('geom', 3), ('rdm', 3), ('eval', 4), ('chunk', 0.25 if not big else 0.6)])
@@ -55,7 +62,8 @@ def gen_plan(rng, tier, index):
                       'policy': rng.pick(['random', 'random', 'lifo', 'fifo']),
                       'straggler': rng.pick([None, None, 0, 1, 5]), 'seed': rng.randrange(10 ** 9)},
             'n_models': rng.randint(1, 2), 'eval_method': rng.pick(['corr', 'cosine', 'spearman']),
-            'n_centers_big': rng.pick([999, 1000, 1001, 1002, 1100, 1331, 2003]), 'n_vox_big': rng.randint(6, 40)}
+            'n_centers_big': rng.pick([999, 1000, 1001, 1002, 1100, 1331, 2003]), 'n_vox_big': rng.randint(6, 40),
+            'dtype': rng.pick(['float64', 'float64', 'float32', 'int64', 'int16'])}
     return plan
 
 
@@ -73,6 +81,8 @@ def directed_plans(tier):
                           'threshold': 1.0})
     plans.append({**base, 'mode': 'chunk', 'shape': [1, 1, 1], 'bits': [1], 'radius': 1, 'threshold': 1.0, 'n_centers_big': 1000})
     plans.append({**base, 'mode': 'chunk', 'shape': [1, 1, 1], 'bits': [1], 'radius': 1, 'threshold': 1.0, 'n_centers_big': 1001})
+    plans.append({**base, 'mode': 'chunk', 'shape': [1, 1, 1], 'bits': [1], 'radius': 1, 'threshold': 1.0, 'n_centers_big': 1001, 'dtype': 'int16'})
+    plans.append({**base, 'mode': 'chunk', 'shape': [1, 1, 1], 'bits': [1], 'radius': 1, 'threshold': 1.0, 'n_centers_big': 1001, 'dtype': 'float32'})
     if tier == 'thorough':
         plans.append({**base, 'mode': 'rdm', 'shape': [11, 11, 11], 'bits': [1] * 1331, 'radius': 1.01, 'threshold': 0.3})
     for pol in ('random', 'lifo', 'fifo'):
@@ -169,7 +179,7 @@ def check_geometry(ctx, mask, radius, threshold, tag=''):
 def ref_rdm(data, cols, events, method):
     ev = np.asarray(events)
     labs = sorted(set(events))
-    sub = data[:, cols]
+    sub = np.asarray(data[:, cols], dtype=float)
     means = np.array([sub[ev == l].mean(axis=0) for l in labs])
     n = len(labs)
     out = []
@@ -205,7 +215,8 @@ def check_rdms(ctx, data, centers, neighbors, events, method):
     d = np.asarray(sl.dissimilarities)
     for i in range(n):
         exp = ref_rdm(data, np.asarray(neighbors[i]).ravel(), events, method)
-        if d[i].shape != exp.shape or not np.allclose(d[i], exp, rtol=1e-9, atol=1e-9, equal_nan=True):
+        tol = 1e-4 if data.dtype == np.float32 else 1e-9      # float32 input: the library may compute in single precision
+        if d[i].shape != exp.shape or not np.allclose(d[i], exp, rtol=tol, atol=tol, equal_nan=True):
             ctx.violation('sl_ref.rdm', 'get_searchlight_RDMs:values' + (':chunked' if n > 1000 else ''),
                           f'RDM {i} (centre {int(np.asarray(centers).ravel()[i])}, {len(np.asarray(neighbors[i]).ravel())} voxels, {n} centres): '
                           f'{d[i][:6].tolist()} != direct computation {exp[:6].tolist()}')
@@ -253,11 +264,11 @@ def execute(plan, ctx):
     n_obs = len(events)
     if mode == 'chunk':
         n, V = plan['n_centers_big'], plan['n_vox_big']
-        data = np.array([[_cell(o, v) for v in range(V)] for o in range(n_obs)])
-        centers = np.array([(i * 7 + 3) % 100003 for i in range(n)])
+        data = _data(n_obs, V, plan.get('dtype', 'float64'))
+        centers = np.array([(i * 7919 + 3) % 100003 for i in range(n)])      # not monotonic
         neighbors = [np.array(sorted({i % V, (i * 3 + 1) % V, (i * 5 + 2) % V, (i // 7) % V})) for i in range(n)]
         check_rdms(ctx, data, centers, neighbors, events, plan['method'])
-        ctx.behaviour('chunk', n, plan['method'], V)
+        ctx.behaviour('chunk', n, plan['method'], V, plan.get('dtype', 'float64'))
         return
     shape = plan['shape']
     mask = np.array(plan['bits']).reshape(shape).astype(bool)
@@ -271,7 +282,7 @@ def execute(plan, ctx):
         ctx.behaviour(mode, 'no-centres', shape_class)
         return
     V = mask.size
-    data = np.array([[_cell(o, v) for v in range(V)] for o in range(n_obs)])
+    data = _data(n_obs, V, plan.get('dtype', 'float64'))
     sl = check_rdms(ctx, data, centers, neighbors, events, plan['method'])
     if mode == 'rdm' or sl is None:
         ctx.behaviour('rdm', shape_class, round(plan['radius'], 2), plan['threshold'], plan['method'], len(centers) > 1000)
